@@ -205,13 +205,27 @@ def materialise(desc) -> Structure:
     s = Structure()
     built = []
     placed_xyz = []  # arrays of already placed heavy atoms
+    window_waters = []
     for ci, ch in enumerate(desc["chains"]):
+        if "window" in ch:
+            wres, wnear = window_chain(ch["window"])
+            ch["seq"] = [r["name"] for r in wres]
+            ch["oxt"] = "OXT" in wres[-1]["atoms"]
+            ch["hyd"] = "none"
+            ch.setdefault("start", 1)
+            res = [dict(name=r["name"], atoms=dict(r["atoms"]), bonds=RES[r["name"]]["bonds"]) for r in wres]
+            tmpl_heavy = sum(sum(1 for a in RES[r["name"]]["atoms"] if topo.heavy(a)) for r in wres)
+            ch["window_missing"] = tmpl_heavy - sum(len(r["atoms"]) for r in wres) + (0 if ch["oxt"] else 1)
+            window_waters = [(ci, w) for w in wnear]
+        else:
+            res = None
         seq = ch["seq"]
         n = len(seq)
-        res = build_chain(
-            seq, ch["phi"], ch["psi"], ch.get("chi"), ch.get("omega"),
-            hydrogens=ch.get("hyd", "none"), oxt=ch.get("oxt", True),
-        )  # fmt: skip
+        if res is None:
+            res = build_chain(
+                seq, ch["phi"], ch["psi"], ch.get("chi"), ch.get("omega"),
+                hydrogens=ch.get("hyd", "none"), oxt=ch.get("oxt", True),
+            )  # fmt: skip
         R = quat_to_rot(ch.get("q", [1, 0, 0, 0]))
         allp = np.array([v for r in res for v in r["atoms"].values()])
         cen = allp.mean(0)
@@ -240,6 +254,10 @@ def materialise(desc) -> Structure:
             shift = np.asarray(ch.get("shift", [40.0 * ci, 0.0, 0.0]), float)
         for r in res:
             r["atoms"] = {k: v + shift for k, v in r["atoms"].items()}
+        for wci, w in window_waters:
+            if wci == ci:
+                desc.setdefault("_window_waters", []).append(list(np.round(R @ (w - cen) + shift, 3)))
+        window_waters = []
         placed_xyz.append(np.array([v for r in res for v in r["atoms"].values()]))
         drop = {(d[0], d[1]) for d in ch.get("drop", [])}
         icodes = ch.get("icodes") or [" "] * n
@@ -264,6 +282,9 @@ def materialise(desc) -> Structure:
     s.strands = []
     for si, strand in enumerate(desc.get("na", [])):
         s.strands.append(strand_records(s, strand, si))
+    # waters that came with a real-structure window (already in the window's frame)
+    for k, p in enumerate(desc.pop("_window_waters", [])):
+        s.add(name="O", resn="HOH", chain="V", seq=800 + k, xyz=p, rec="HETATM", group=("water",))
     # waters
     heavy = s.heavy_xyz() if s.records else np.zeros((0, 3))
     polar = [r["xyz"] for r in s.records if r["name"][0] in "NO"]
@@ -390,3 +411,62 @@ def strand_records(s: Structure, st, index):
     if st.get("ter", True) and s.records:
         s.ters.add(len(s.records) - 1)
     return meta
+
+
+# --------------------------------------------------------------------------
+# G2 - windows cut from real structures
+# --------------------------------------------------------------------------
+_WINDOW_CACHE = {}
+WINDOW_FILES = ["1AFS", "1AJJ", "1BX8", "1K1I", "1QBS", "1US0"]
+
+
+def _real_structure(name):
+    """Parsed real structure: list of protein residues (heavy atoms, first alt-loc) and waters."""
+    if name in _WINDOW_CACHE:
+        return _WINDOW_CACHE[name]
+    from pathlib import Path
+
+    from . import colfmt
+
+    path = Path(__file__).resolve().parent / "data" / "pdb" / f"{name}.pdb"
+    residues, waters = [], []
+    cur = None
+    for ln in path.read_text().splitlines():
+        if not ln.startswith(("ATOM", "HETATM")):
+            continue
+        a = colfmt.pdb_atom(ln)
+        if a["alt"] not in (" ", "A") or not topo.heavy(a["name"]) or ln[76:78].strip() == "H":
+            continue
+        xyz = np.array([a["x"], a["y"], a["z"]])
+        if a["resn"] == "HOH":
+            waters.append(xyz)
+            continue
+        if a["rec"] != "ATOM" or a["resn"] not in topo.AA20:
+            cur = None
+            continue
+        key = (a["chain"], a["seq"], a["icode"])
+        if cur is None or cur["key"] != key:
+            cur = dict(key=key, name=a["resn"], atoms={})
+            residues.append(cur)
+        if a["name"] not in cur["atoms"]:
+            cur["atoms"][a["name"]] = xyz
+    # contiguity: peptide bond to the next residue
+    for r, nxt in zip(residues, residues[1:] + [None]):
+        r["linked"] = bool(nxt and "C" in r["atoms"] and "N" in nxt["atoms"] and measure(r["atoms"]["C"], nxt["atoms"]["N"]) < 1.5
+                           and r["key"][0] == nxt["key"][0])
+    _WINDOW_CACHE[name] = (residues, waters)
+    return _WINDOW_CACHE[name]
+
+
+def window_chain(spec):
+    """Resolve a window spec {file, first, len} into residues; returns (list of residue dicts, waters near)."""
+    residues, waters = _real_structure(WINDOW_FILES[spec["file"] % len(WINDOW_FILES)])
+    n = len(residues)
+    first = spec["first"] % n
+    out = [residues[first]]
+    while len(out) < spec["len"] and out[-1]["linked"]:
+        out.append(residues[residues.index(out[-1]) + 1])
+    # template-complete residues only at the cut (missing side-chain atoms stay missing: a repair case)
+    P = np.array([v for r in out for v in r["atoms"].values()])
+    near = [w for w in waters if np.min(np.linalg.norm(P - w, axis=1)) < 3.5][: spec.get("maxwat", 6)]
+    return out, near
